@@ -51,7 +51,7 @@ Lemma release_file (h : heap) (c : nat) d k i m : get h c = Some (NFile d k i m)
 Proof. intros E. unfold release. rewrite E. reflexivity. Qed.
 
 Section Sim.
-  Variables (h0 : heap) (u : user) (e : nat).
+  Variables (h0 : heap) (u : user) (e top : nat).
   Hypothesis Hadm : us_admin u = true.
   Hypothesis Hacyc : forall d, ~ dreachp h0 d d.
   Hypothesis Hss : sym_single h0.
@@ -61,15 +61,19 @@ Section Sim.
     r_x : forall i, X i -> dir_rel (get hi i) (get hs i);
     r_pt : forall i, ~ X i -> i <> e ->
            get hi i = get hs i
-           \/ (sym_rel (get hi i) (get hs i) /\ forall d n, In (n, i) (children hs d) -> X d);
+           \/ (sym_rel (get hi i) (get hs i) /\ (forall d n, In (n, i) (children hs d) -> X d)
+               /\ exists d n, In (n, i) (children h0 d) /\ dreach h0 top d);
     r_sub : forall d n c, In (n, c) (children hs d) -> In (n, c) (children h0 d);
-    r_kind : forall i, nkind (get hs i) = nkind (get h0 i) }.
+    r_kind : forall i, nkind (get hs i) = nkind (get h0 i);
+    (* a link of the specification's heap is as it was, or listed by directories in progress only *)
+    r_symk : forall i t m, get hs i = Some (NSym t m) ->
+             get h0 i = Some (NSym t m) \/ forall d n, In (n, i) (children hs d) -> X d }.
 
   (* MemFS alone changes the entries of a directory in progress *)
   Lemma R_dirty (X : nat -> Prop) (hi hi2 hs : heap) (d : nat) :
     R X hi hs -> X d -> (forall i, i <> d -> get hi2 i = get hi i) -> dir_rel (get hi2 d) (get hi d) -> R X hi2 hs.
   Proof.
-    intros [Rx Rp Rs Rk] Hd Hoth Hdd. split; [| |exact Rs|exact Rk].
+    intros [Rx Rp Rs Rk Ry] Hd Hoth Hdd. split; [| |exact Rs|exact Rk|exact Ry].
     - intros i Hi. destruct (Nat.eq_dec i d) as [-> |Hne].
       + eapply dir_rel_trans; [exact Hdd|apply Rx; exact Hd].
       + rewrite (Hoth i Hne). apply Rx. exact Hi.
@@ -80,19 +84,20 @@ Section Sim.
   Lemma R_enter (X : nat -> Prop) (hi hs : heap) (d : nat) :
     R X hi hs -> ~ X d -> d <> e -> node_is_dir hs d = true -> R (fun i => X i \/ i = d) hi hs.
   Proof.
-    intros [Rx Rp Rs Rk] Hd Hde Hdir. split; [| |exact Rs|exact Rk].
+    intros [Rx Rp Rs Rk Ry] Hd Hde Hdir. split; [| |exact Rs|exact Rk|].
     - intros i [Hi| ->]; [apply Rx; exact Hi|].
       destruct (Rp d Hd Hde) as [E|((t & t' & m & _ & E) & _)].
       + unfold node_is_dir in Hdir. rewrite E. destruct (get hs d) as [[ch m| |]|]; try discriminate. exists ch, ch, m. auto.
       + unfold node_is_dir in Hdir. rewrite E in Hdir. discriminate.
-    - intros i Hi Hie. assert (Hi' : ~ X i) by tauto. destruct (Rp i Hi' Hie) as [E|(E & F)]; [left; exact E|].
-      right. split; [exact E|]. intros d' n Hin. left. exact (F d' n Hin).
+    - intros i Hi Hie. assert (Hi' : ~ X i) by tauto. destruct (Rp i Hi' Hie) as [E|(E & F & Q)]; [left; exact E|].
+      right. split; [exact E|]. split; [|exact Q]. intros d' n Hin. left. exact (F d' n Hin).
+    - intros i t m Hg. destruct (Ry i t m Hg) as [E|F]; [left; exact E|right]. intros d' n Hin. left. exact (F d' n Hin).
   Qed.
 
   Lemma R_leave (X : nat -> Prop) (hi hs : heap) (d : nat) :
     R (fun i => X i \/ i = d) hi hs -> ~ X d -> R X (delete_node hi d) (delete_node hs d).
   Proof.
-    intros [Rx Rp Rs Rk] Hd.
+    intros [Rx Rp Rs Rk Ry] Hd.
     assert (Hch : forall d', children (delete_node hs d) d' = if Nat.eqb d' d then [] else children hs d').
     { intros d'. unfold children at 1. rewrite get_delete_node_eq. destruct (Nat.eqb_spec d' d) as [-> |_]; [|reflexivity].
       destruct (Rx d (or_intror eq_refl)) as (c1 & c2 & m & _ & ->). reflexivity. }
@@ -101,12 +106,18 @@ Section Sim.
       rewrite !get_delete_node_eq, Hne. apply Rx. left. exact Hi.
     - intros i Hi Hie. rewrite !get_delete_node_eq. destruct (Nat.eqb_spec i d) as [-> |Hne].
       + destruct (Rx d (or_intror eq_refl)) as (c1 & c2 & m & -> & ->). left. reflexivity.
-      + assert (Hi' : ~ (X i \/ i = d)) by tauto. destruct (Rp i Hi' Hie) as [E|(E & F)]; [left; exact E|].
-        right. split; [exact E|]. intros d' n Hin. rewrite Hch in Hin. destruct (Nat.eqb_spec d' d) as [-> |Hne']; [destruct Hin|].
+      + assert (Hi' : ~ (X i \/ i = d)) by tauto. destruct (Rp i Hi' Hie) as [E|(E & F & Q)]; [left; exact E|].
+        right. split; [exact E|]. split; [|exact Q].
+        intros d' n Hin. rewrite Hch in Hin. destruct (Nat.eqb_spec d' d) as [-> |Hne']; [destruct Hin|].
         destruct (F d' n Hin) as [HX|HX]; [exact HX|congruence].
     - intros d' n c Hin. rewrite Hch in Hin. destruct (Nat.eqb d' d); [destruct Hin|]. exact (Rs d' n c Hin).
     - intros i. rewrite get_delete_node_eq. destruct (Nat.eqb_spec i d) as [-> |_]; [|apply Rk].
       rewrite nkind_deleted. apply Rk.
+    - intros i t m Hg. rewrite get_delete_node_eq in Hg. destruct (Nat.eqb_spec i d) as [-> |Hne].
+      + destruct (Rx d (or_intror eq_refl)) as (c1 & c2 & m' & _ & E). rewrite E in Hg. discriminate Hg.
+      + destruct (Ry i t m Hg) as [E|F]; [left; exact E|right].
+        intros d' n Hin. rewrite Hch in Hin. destruct (Nat.eqb_spec d' d) as [-> |Hne']; [destruct Hin|].
+        destruct (F d' n Hin) as [HX|HX]; [exact HX|congruence].
   Qed.
 
   Lemma children_kind (h : heap) (x : nat) : nkind (get h x) <> 1 -> children h x = [].
@@ -115,15 +126,20 @@ Section Sim.
   (* a non-directory entry [nm -> c'] of the directory [d] in progress is removed on both sides *)
   Lemma R_nondir (X : nat -> Prop) (hi hs hi2 hs2 : heap) (d : nat) (nm : str) (c' : nat) :
     R X hi hs -> X d -> ~ X c' -> c' <> d ->
+    In (nm, c') (children h0 d) -> dreach h0 top d ->
     nkind (get hs c') <> 1 ->
     (forall i, i <> c' -> get hs2 i = get hs i) ->
     nkind (get hs2 c') = nkind (get hs c') ->
-    (get hi2 c' = get hs2 c'
-     \/ (sym_rel (get hi2 c') (get hs2 c') /\ In (nm, c') (children h0 d) /\ nkind (get h0 c') = 3)) ->
+    (get hi2 c' = get hs2 c' \/ sym_rel (get hi2 c') (get hs2 c')) ->
     (forall i, i <> c' -> i <> d -> get hi2 i = get hi i) -> dir_rel (get hi2 d) (get hi d) ->
     R X hi2 hs2.
   Proof.
-    intros [Rx Rp Rs Rk] Hd Hc Hcd Hk Hs2 Hk2 Hrel Hi2 Hdd.
+    intros [Rx Rp Rs Rk Ry] Hd Hc Hcd Hin Htop Hk Hs2 Hk2 Hrel Hi2 Hdd.
+    assert (Hedges : forall t m, get hs2 c' = Some (NSym t m) -> forall d' n, In (n, c') (children hs d') -> X d').
+    { intros t m Hg d' n Hin'. apply Rs in Hin'.
+      assert (Hk3 : nkind (get h0 c') = 3) by (rewrite <- Rk, <- Hk2, Hg; reflexivity).
+      destruct (get h0 c') as [[| |t0 m0]|] eqn:Eg; cbn [nkind] in Hk3; try discriminate.
+      destruct (Hss c' t0 m0 d' n d nm Eg Hin' Hin) as (-> & _). exact Hd. }
     assert (Hch : forall x, children hs2 x = children hs x).
     { intros x. destruct (Nat.eq_dec x c') as [-> | Hne]; [|apply children_of_get, Hs2; exact Hne].
       rewrite !children_kind; [reflexivity|exact Hk|rewrite Hk2; exact Hk]. }
@@ -133,24 +149,26 @@ Section Sim.
       + eapply dir_rel_trans; [exact Hdd|apply Rx; exact Hd].
       + rewrite (Hi2 i Hic Hne). apply Rx. exact Hi.
     - intros i Hi Hie. destruct (Nat.eq_dec i c') as [-> | Hic].
-      + destruct Hrel as [E|(E & Hin & Hk3)]; [left; exact E|]. right. split; [exact E|].
-        intros d' n Hin'. rewrite Hch in Hin'. apply Rs in Hin'.
-        destruct (get h0 c') as [[| |t m]|] eqn:Eg; cbn [nkind] in Hk3; try discriminate.
-        destruct (Hss c' t m d' n d nm Eg Hin' Hin) as (-> & _). exact Hd.
+      + destruct Hrel as [E|E]; [left; exact E|]. right. split; [exact E|]. split; [|exists d, nm; auto].
+        destruct E as (t & t' & m & _ & Eg2). intros d' n Hin'. rewrite Hch in Hin'. exact (Hedges _ _ Eg2 d' n Hin').
       + assert (Hid : i <> d) by (intros ->; exact (Hi Hd)). rewrite (Hs2 i Hic), (Hi2 i Hic Hid).
-        destruct (Rp i Hi Hie) as [E|(E & F)]; [left; exact E|]. right. split; [exact E|].
+        destruct (Rp i Hi Hie) as [E|(E & F & Q)]; [left; exact E|]. right. split; [exact E|]. split; [|exact Q].
         intros d' n Hin'. rewrite Hch in Hin'. exact (F d' n Hin').
-    - intros d' n c Hin. rewrite Hch in Hin. exact (Rs d' n c Hin).
+    - intros d' n c Hin'. rewrite Hch in Hin'. exact (Rs d' n c Hin').
     - intros i. destruct (Nat.eq_dec i c') as [-> | Hic]; [rewrite Hk2; apply Rk|]. rewrite (Hs2 i Hic). apply Rk.
+    - intros i t m Hg. destruct (Nat.eq_dec i c') as [-> | Hic].
+      + right. intros d' n Hin'. rewrite Hch in Hin'. exact (Hedges _ _ Hg d' n Hin').
+      + rewrite (Hs2 i Hic) in Hg. destruct (Ry i t m Hg) as [E|F]; [left; exact E|right].
+        intros d' n Hin'. rewrite Hch in Hin'. exact (F d' n Hin').
   Qed.
 
   Lemma R_step_nondir (X : nat -> Prop) (hi hs : heap) (d : nat) (nm : str) (c' : nat) (f : nat) :
     R X hi hs -> X d -> ~ X c' -> c' <> d -> c' <> e -> d <> e ->
-    In (nm, c') (children h0 d) -> node_is_dir hi c' = false ->
+    In (nm, c') (children h0 d) -> dreach h0 top d -> node_is_dir hi c' = false ->
     R X (delete_node (remove_child hi d nm) c') (drop_tree (S f) hs c')
     /\ get (delete_node (remove_child hi d nm) c') e = get hi e /\ get (drop_tree (S f) hs c') e = get hs e.
   Proof.
-    intros HR Hd Hc Hcd Hce Hde Hin Hnd.
+    intros HR Hd Hc Hcd Hce Hde Hin Htop Hnd.
     pose proof (unlink_get hi d nm c') as Hu.
     assert (Hi2 : forall i, i <> c' -> i <> d -> get (delete_node (remove_child hi d nm) c') i = get hi i).
     { intros i H1 H2. rewrite (Hu i Hcd). apply Nat.eqb_neq in H1, H2. rewrite H1, H2. reflexivity. }
@@ -192,35 +210,32 @@ Section Sim.
     assert (Hk2 : nkind (get hs2 c') = nkind (get hs c')).
     { destruct Hs2c as [-> |(-> & _)]; [apply nkind_deleted|reflexivity]. }
     split; [|split; [exact Hfe|apply Hs2; congruence]].
-    apply (R_nondir X hi hs _ hs2 d nm c' HR Hd Hc Hcd Hks Hs2 Hk2); [|exact Hi2|exact Hdd].
+    apply (R_nondir X hi hs _ hs2 d nm c' HR Hd Hc Hcd Hin Htop Hks Hs2 Hk2); [|exact Hi2|exact Hdd].
     rewrite Hic. destruct Hbefore as [(E & _)|(t & t' & m & E1 & E2)].
     - rewrite E. destruct Hs2c as [-> |(-> & [K|K])]; [left; reflexivity| |].
-      + right. destruct (get hs c') as [[| |t m]|] eqn:Eg; cbn [nkind] in K; try discriminate. split; [|split; [exact Hin|]].
-        * exists [], t, m. auto.
-        * rewrite <- (r_kind _ _ _ HR c'), Eg. reflexivity.
+      + right. destruct (get hs c') as [[| |t m]|] eqn:Eg; cbn [nkind] in K; try discriminate.
+        exists [], t, m. auto.
       + left. destruct (get hs c') as [[| |]|]; cbn [nkind] in K; try discriminate. reflexivity.
-    - right. split; [|split; [exact Hin|]].
-      + rewrite E1. destruct Hs2c as [-> |(-> & _)]; rewrite E2; [exists [], [], m|exists [], t', m]; auto.
-      + rewrite <- (r_kind _ _ _ HR c'), E2. reflexivity.
+    - right. rewrite E1. destruct Hs2c as [-> |(-> & _)]; rewrite E2; [exists [], [], m|exists [], t', m]; auto.
   Qed.
 
   (* ---- the simulation of the two recursions ------------------------------------------------------------------------------------ *)
   Definition P (f : nat) : Prop := forall (X : nat -> Prop) (hi hs : heap) (c : nat),
-    R X hi hs -> ~ X c -> ~ dreach h0 c e -> (forall x, X x -> dreach h0 x c) ->
+    R X hi hs -> ~ X c -> ~ dreach h0 c e -> (forall x, X x -> dreach h0 x c) -> dreach h0 top c ->
     node_is_dir hs c = true -> maxlen h0 c f ->
     exists hi', remove_all_rec f hi u c = (hi', None)
       /\ R X (delete_node hi' c) (drop_tree f hs c)
       /\ get (delete_node hi' c) e = get hi e /\ get (drop_tree f hs c) e = get hs e.
 
   Lemma loop_sim (f : nat) (X : nat -> Prop) (d : nat) :
-    P f -> ~ X d -> ~ dreach h0 d e -> (forall x, X x -> dreach h0 x d) -> maxlen h0 d (S f) ->
+    P f -> ~ X d -> ~ dreach h0 d e -> (forall x, X x -> dreach h0 x d) -> dreach h0 top d -> maxlen h0 d (S f) ->
     forall (chs : list (str * nat)) (hi hs : heap),
     R (fun i => X i \/ i = d) hi hs -> (forall n c, In (n, c) chs -> In (n, c) (children h0 d)) ->
     exists hi', ra_loop (fun h c => remove_all_rec f h u c) d chs hi = (hi', None)
       /\ R (fun i => X i \/ i = d) hi' (fold_left (fun h1 nc => drop_tree f h1 (snd nc)) chs hs)
       /\ get hi' e = get hi e /\ get (fold_left (fun h1 nc => drop_tree f h1 (snd nc)) chs hs) e = get hs e.
   Proof.
-    intros HP HXd Hde HXr Hml.
+    intros HP HXd Hde HXr Htop Hml.
     assert (Hdne : d <> e) by (intros ->; apply Hde; constructor).
     induction chs as [|[nm c'] chs IH]; intros hi hs HR Hin.
     - exists hi. cbn [ra_loop fold_left]. auto.
@@ -245,7 +260,7 @@ Section Sim.
           - unfold node_is_dir in Hdir. rewrite E in Hdir. discriminate. }
         assert (HXr' : forall x, X x \/ x = d -> dreach h0 x c').
         { intros x [Hx| ->]; [eapply dreach_trans; [apply HXr; exact Hx|exact Hstep]|exact Hstep]. }
-        destruct (HP _ hi hs c' HR HXc Hce HXr' Hdirs Hmc) as (hi1 & -> & R1 & F1 & F2).
+        destruct (HP _ hi hs c' HR HXc Hce HXr' (dreach_trans _ _ _ _ Htop Hstep) Hdirs Hmc) as (hi1 & -> & R1 & F1 & F2).
         set (hi2 := delete_node (remove_child hi1 d nm) c').
         assert (Hu : forall i, get hi2 i = if Nat.eqb i c' then option_map deleted (get hi1 c')
                                             else if Nat.eqb i d then match get hi1 d with
@@ -265,14 +280,14 @@ Section Sim.
         assert (N2 : Nat.eqb e d = false) by (apply Nat.eqb_neq; congruence).
         rewrite N1, N2. rewrite get_delete_node_eq, N1 in F1. exact F1.
       + (* a file, a link *)
-        destruct (R_step_nondir _ hi hs d nm c' f' HR (or_intror eq_refl) HXc Hcd Hcne Hdne He0 Hdir) as (R2 & F1 & F2).
+        destruct (R_step_nondir _ hi hs d nm c' f' HR (or_intror eq_refl) HXc Hcd Hcne Hdne He0 Htop Hdir) as (R2 & F1 & F2).
         destruct (IH _ _ R2 Hin') as (hi' & E & R3 & G1 & G2). exists hi'. split; [exact E|]. split; [exact R3|].
         split; [rewrite G1; exact F1|rewrite G2; exact F2].
   Qed.
 
   Lemma P_all : forall f, P f.
   Proof.
-    induction f as [|f IH]; intros X hi hs c HR HXc Hce HXr Hdir Hml.
+    induction f as [|f IH]; intros X hi hs c HR HXc Hce HXr Htop Hdir Hml.
     - pose proof (maxlen_pos h0 c 0 Hml). lia.
     - assert (Hcne : c <> e) by (intros ->; apply Hce; constructor).
       rewrite remove_all_rec_S, drop_tree_S.
@@ -288,7 +303,7 @@ Section Sim.
       pose proof (R_enter X hi hs c HR HXc Hcne Hdirs) as R1.
       assert (Hin : forall n c', In (n, c') ch -> In (n, c') (children h0 c)).
       { intros n c' H. apply (r_sub _ _ _ HR). unfold children. rewrite Egs. exact H. }
-      destruct (loop_sim f X c IH HXc Hce HXr Hml ch hi hs R1 Hin) as (hi' & E & R2 & G1 & G2).
+      destruct (loop_sim f X c IH HXc Hce HXr Htop Hml ch hi hs R1 Hin) as (hi' & E & R2 & G1 & G2).
       exists hi'. split; [exact E|]. split; [apply R_leave; assumption|].
       assert (N : Nat.eqb e c = false) by (apply Nat.eqb_neq; congruence).
       rewrite !get_delete_node_eq, N. auto.
@@ -359,9 +374,18 @@ Section Top.
   Hypothesis Hedge : In (cl, c) (children h par).
   Hypothesis Hdir : node_is_dir h c = true.
 
-  Lemma top_sim :
+  (* the strong form: a node on which the final heaps differ is a link listed (in [h]) by a directory of the subtree;
+     the specification's edges are old edges, its kinds are kept, and its listed links are as they were *)
+  Lemma top_sim_x :
     exists hi', remove_all_rec (S (length h)) h u c = (hi', None)
-      /\ geq (delete_node (remove_child hi' par cl) c) (drop_tree (S (length h)) (remove_child h par cl) c)
+      /\ (let hiF := delete_node (remove_child hi' par cl) c in
+          let hsF := drop_tree (S (length h)) (remove_child h par cl) c in
+          (forall i, get hiF i = get hsF i
+                     \/ (sym_rel (get hiF i) (get hsF i) /\ (forall d n, ~ In (n, i) (children hsF d))
+                         /\ exists d n, In (n, i) (children h d) /\ dreach h c d))
+          /\ (forall d n x, In (n, x) (children hsF d) -> In (n, x) (children h d))
+          /\ (forall i t m, get hsF i = Some (NSym t m) ->
+                             get h i = Some (NSym t m) \/ forall d n, ~ In (n, i) (children hsF d)))
       /\ get hi' par = get h par.
   Proof.
     assert (Hne : c <> par).
@@ -371,7 +395,8 @@ Section Top.
     set (hs0 := remove_child h par cl).
     assert (Hg0 : forall i, i <> par -> get hs0 i = get h i).
     { intros i Hi. unfold hs0. rewrite get_remove_child_eq. apply Nat.eqb_neq in Hi. rewrite Hi. reflexivity. }
-    assert (HR : R h par (fun _ => False) h hs0).
+    assert (Hk0 : forall i, nkind (get hs0 i) = nkind (get h i)) by (intros i; apply nkind_remove_child).
+    assert (HR : R h par c (fun _ => False) h hs0).
     { split.
       - intros i [].
       - intros i _ Hi. left. symmetry. apply Hg0. exact Hi.
@@ -379,20 +404,33 @@ Section Top.
         + unfold children, hs0 in Hin. rewrite get_remove_child_eq, Nat.eqb_refl in Hin. unfold children.
           destruct (get h par) as [[ch m| |]|]; try exact Hin. apply in_aremove in Hin. tauto.
         + rewrite (children_of_get h hs0 d (Hg0 d Hd)) in Hin. exact Hin.
-      - intros i. destruct (Nat.eq_dec i par) as [-> | Hi]; [|rewrite (Hg0 i Hi); reflexivity].
-        unfold hs0. rewrite get_remove_child_eq, Nat.eqb_refl. destruct (get h par) as [[| |]|]; reflexivity. }
+      - exact Hk0.
+      - intros i t m Hg. left. destruct (Nat.eq_dec i par) as [-> | Hi]; [|rewrite <- (Hg0 i Hi); exact Hg].
+        unfold hs0 in Hg. rewrite get_remove_child_eq, Nat.eqb_refl in Hg. destruct (get h par) as [[| |]|]; try discriminate Hg; exact Hg. }
     assert (Hdirs : node_is_dir hs0 c = true) by (unfold node_is_dir; rewrite (Hg0 c Hne); exact Hdir).
-    destruct (P_all h u par Hadm Hacyc Hss (S (length h)) (fun _ => False) h hs0 c HR (fun x => x) Hnr
-                (fun x (F : False) => match F with end) Hdirs Hml) as (hi' & E & R1 & F1 & F2).
+    destruct (P_all h u par c Hadm Hacyc Hss (S (length h)) (fun _ => False) h hs0 c HR (fun x => x) Hnr
+                (fun x (F : False) => match F with end) (dreach_refl _ _) Hdirs Hml) as (hi' & E & R1 & F1 & F2).
     assert (Np : Nat.eqb par c = false) by (apply Nat.eqb_neq; congruence).
     rewrite get_delete_node_eq, Np in F1.
-    exists hi'. split; [exact E|]. split; [|exact F1].
-    intros i. rewrite (unlink_get hi' par cl c i Hne). destruct (Nat.eq_dec i par) as [-> | Hi].
-    - left. rewrite Np, Nat.eqb_refl, F1, F2. unfold hs0. rewrite get_remove_child_eq, Nat.eqb_refl. reflexivity.
-    - assert (Ni : Nat.eqb i par = false) by (apply Nat.eqb_neq; exact Hi). rewrite Ni.
-      destruct (r_pt _ _ _ _ _ R1 i (fun x => x) Hi) as [Eq|(Eq & F)]; rewrite get_delete_node_eq in Eq.
-      + left. exact Eq.
-      + right. split; [exact Eq|]. intros d n Hin. exact (F d n Hin).
+    exists hi'. split; [exact E|]. split; [|exact F1]. cbv zeta. split; [|split].
+    - intros i. rewrite (unlink_get hi' par cl c i Hne). destruct (Nat.eq_dec i par) as [-> | Hi].
+      + left. rewrite Np, Nat.eqb_refl, F1, F2. unfold hs0. rewrite get_remove_child_eq, Nat.eqb_refl. reflexivity.
+      + assert (Ni : Nat.eqb i par = false) by (apply Nat.eqb_neq; exact Hi). rewrite Ni.
+        destruct (r_pt _ _ _ _ _ _ R1 i (fun x => x) Hi) as [Eq|(Eq & F & Q)]; rewrite get_delete_node_eq in Eq.
+        * left. exact Eq.
+        * right. split; [exact Eq|]. split; [|exact Q]. intros d n Hin. exact (F d n Hin).
+    - intros d n x Hin. exact (r_sub _ _ _ _ _ _ R1 d n x Hin).
+    - intros i t m Hg. destruct (r_symk _ _ _ _ _ _ R1 i t m Hg) as [Eq|F]; [left; exact Eq|right].
+      intros d n Hin. exact (F d n Hin).
+  Qed.
+
+  Lemma top_sim :
+    exists hi', remove_all_rec (S (length h)) h u c = (hi', None)
+      /\ geq (delete_node (remove_child hi' par cl) c) (drop_tree (S (length h)) (remove_child h par cl) c)
+      /\ get hi' par = get h par.
+  Proof.
+    destruct top_sim_x as (hi' & E & (G & _) & F). exists hi'. split; [exact E|]. split; [|exact F].
+    intros i. destruct (G i) as [Eq|(Eq & Fe & _)]; [left; exact Eq|right; split; assumption].
   Qed.
 End Top.
 
